@@ -66,11 +66,11 @@ def op_to_val(o):
         return [7, addr_to_val(o[1]), [u['asn'], u['local_asn'], u['hold'], int(u['passive']), int(u['rs']), int(u['rrc']), opt(u['cluster'])]]
     if o[0] == 'discrace':
         return [8, addr_to_val(o[1]), int(o[2]), int(o[3])]
-    return [{'connect': 0, 'disconnect': 1, 'admin': 2, 'disable': 3, 'enable': 4, 'delete': 5, 'delrace': 6}[o[0]], addr_to_val(o[1]), int(o[2])]
+    return [{'connect': 0, 'disconnect': 1, 'admin': 2, 'disable': 3, 'enable': 4, 'delete': 5, 'delrace': 6, 'reset': 9}[o[0]], addr_to_val(o[1]), int(o[2])]
 
 def op_to_coq(o):
     if o[0] == 'connect': return '(OConnect %s %s)' % (caddr(o[1]), crole(o[2]))
-    if o[0] == 'disconnect': return '(ODisconnect %s %s)' % (caddr(o[1]), crole(o[2]))
+    if o[0] in ('disconnect', 'reset'): return '(ODisconnect %s %s)' % (caddr(o[1]), crole(o[2]))     # reset: see the harness, op 9
     if o[0] == 'disable': return '(ODisable %s)' % caddr(o[1])
     if o[0] == 'enable': return '(OEnable %s)' % caddr(o[1])
     if o[0] == 'delete': return '(ODelete %s)' % caddr(o[1])
@@ -106,7 +106,7 @@ def sort_caps(caps):
     return sorted(out, key=lambda x: json.dumps(x))
 
 def canon_peer_row(r):
-    r = list(r); r[6] = sort_caps(r[6]); r[10] = sorted(r[10]); r[11] = sorted(r[11]); return r
+    r = list(r)[:15]; r[6] = sort_caps(r[6]); r[10] = sorted(r[10]); r[11] = sorted(r[11]); return r      # r[15]: FSM view, oracle only
 
 def canon_session(sv):
     sv = list(sv); sv[3] = sort_caps(sv[3]); sv[5] = sorted(sv[5]); return sv
@@ -116,7 +116,7 @@ def canon_acc(obs):
     if obs and obs[0] and obs[0][0] == -7: obs = obs[1:]
     out = [sorted([canon_peer_row(r) for r in obs[0]], key=lambda r: r[0])]
     for res, rows in obs[1:]:
-        out.append([[canon_session(x) for x in res], sorted([canon_peer_row(r) for r in rows], key=lambda r: r[0])])
+        out.append([[canon_session(x) for x in res[:1]], sorted([canon_peer_row(r) for r in rows], key=lambda r: r[0])])     # res[1]: the OPEN on the wire, oracle only
     return out
 
 class Prop:
@@ -449,6 +449,9 @@ class Prop:
                 case('enable_%s_%s' % (nkind, sname), groups, statics, pre + [('enable', a1, 0)] + tail)
                 case('disable_enable_%s_%s' % (nkind, sname), groups, statics, pre + [('disable', a1, 0), ('enable', a1, 0)] + tail)
                 case('delete_%s_%s' % (nkind, sname), groups, statics, pre + [('delete', a1, 0)] + tail)
+                # hard ResetPeer (the API's own teardown path), then new attempts in both directions, twice over
+                for d in (0, 1):
+                    case('hard_reset_%s_%s' % (nkind, sname), groups, statics, pre + [('reset', a1, d)] + tail + [('reset', a1, 1), ('reset', a1, 0)] + tail)
                 # a connection ends while another one of the same neighbour is being admitted
                 for old in (0, 1):
                     for new in (0, 1):
@@ -909,7 +912,7 @@ class Prop:
                         exp[key] = got
                     m = self._session_mismatch(c, arg, got, want, res[0])
                     if m: return 'op %d: session for %s: %s' % (k, addr[1], m)
-            elif kind == 'disconnect':
+            elif kind in ('disconnect', 'reset'):
                 row = before.get(key)
                 if row is not None and row[flag]:
                     exp[key][flag] = 0
@@ -927,6 +930,26 @@ class Prop:
                     exp[key].update(admin=1, ca=0, cp=0)      # its connections are torn down
                     if had and exp[key]['delete']: del exp[key]
             if key not in exp: dyn.pop(key, None)
+            # what the admitted session puts on the wire (harness res[1]) and the FSM behind every neighbour (row[15])
+            if res and len(res) > 1:
+                got = after.get(key)
+                if not res[1]:
+                    return 'op %d: the admitted connection from %s was not sent an OPEN (its slot in the neighbour\'s FSM was not free, or the session ended at once)' % (k, addr[1])
+                if got is not None:
+                    w_as, w_hold, _opt = res[1][0]
+                    want_as = got['local_asn'] if got['local_asn'] < 65536 else 23456
+                    if w_as != want_as:
+                        return 'op %d: the OPEN sent to %s carries AS %d, the neighbour is configured with local AS %d' % (k, addr[1], w_as, got['local_asn'])
+                    if 3 <= got['hold'] <= 65535 and w_hold != got['hold']:
+                        return 'op %d: the OPEN sent to %s carries hold time %d, configured %d' % (k, addr[1], w_hold, got['hold'])
+            for r in rws:
+                if len(r) > 15:
+                    sa, sp, fcaps = r[15]
+                    if (not r[13] and sa != 0) or (not r[14] and sp != 0):
+                        return 'op %d (%s): neighbour %s has no %s connection but its FSM slot is in state %d (not Idle): the slot was not freed for a new attempt' % (
+                            k, o[0], r[0][1], 'active' if (not r[13] and sa != 0) else 'passive', sa if (not r[13] and sa != 0) else sp)
+                    if sort_caps(fcaps) != sort_caps(r[6]):
+                        return 'op %d (%s): the capabilities the FSM of %s will advertise differ from the configured ones' % (k, o[0], r[0][1])
             if exp != after:
                 diff = sorted(set(exp) ^ set(after)) or [kk for kk in exp if exp[kk] != after[kk]]
                 return 'op %d (%s): neighbour table is not what the operation should leave (%s)' % (k, o[0], diff[:2])
